@@ -36,6 +36,7 @@ let run_case ~(v0 : bool) (c : case) =
     | ["cmpmode"; _] -> ()
     | ["vsign"; _] -> ()
     | "offs" :: _ -> ()
+    | "mixedconcat" :: _ -> print_endline "precond"; dead := true   (* member offsets are not part of the model *)
     | _ ->
       let key n = let i = int_of_nat n in if i < Array.length !keys then !keys.(i) else BinNums.Z0 in
       let s = match !st with Some s -> s | None -> sys_init (nat_of_int !nlists) in
@@ -102,6 +103,7 @@ let run_case_ptr (c : case) =
     | ["nlists"; n] -> nlists := int_of_string n
     | ["vsign"; _] -> ()
     | "offs" :: _ -> ()
+    | "mixedconcat" :: _ -> print_endline "precond"; dead := true   (* member offsets are not part of the model *)
     | ["cmpmode"; _] -> ()
     | _ ->
       let key n = let i = int_of_nat n in if i < Array.length !keys then !keys.(i) else BinNums.Z0 in
